@@ -103,6 +103,8 @@ Let rk := rk_of sc.
 Let wpol := bs_wp b.
 (* the blocking condition, per running call (C01: the rank discipline; C09: see the end of this file) *)
 Variable blk : apiop -> list hold -> lock -> Prop.
+(* the scheduling mode "a thread pauses after every release" (Conc.turn_g) *)
+Variable yr : bool.
 
 Hypothesis EO : env_ok blk e.
 
@@ -121,7 +123,7 @@ Definition TI (t : tid) (th : thr) (w : world) : Prop :=
   else match th_cur th with
        | None => th_started th = false /\ TB (th_loc th) H K /\ closed (gflag (th_loc th)) (th_rest th) = true
        | Some (o, p) => th_started th = true /\ closed (gflag (th_loc th)) (o :: th_rest th) = true /\
-                        (exists op, nextop p = NOp op /\ is_sched op = true) /\
+                        (exists op, nextop p = NOp op) /\
                         Wp.wp (blk o) p H K (Qr_of (th_loc th) o) (Qt_of (th_loc th) o) (QF_of (th_loc th) o)
        end.
 
@@ -156,9 +158,10 @@ Proof.
         exists H1, K1. split; [exact A1|]. cbn [th_over]. now apply ST.
       * destruct (IH lc' w1 _ H1 K1 th' w' evs' A1 C1 T1 CL1 E) as [I1 [I2 I3]].
         split; [exact I1|]. split; [exact I2|]. eapply frame_trans; [apply (FR out w1); now left|exact I3].
-    + destruct D as [H1 [K1 [A1 [C1 [W1 N1]]]]]. inversion E; subst.
+    + destruct D as [H1 [K1 [A1 [C1 [W1 [o1 [N1 _]]]]]]]. inversion E; subst.
       split; [|split; [exact C1|apply (FR OPanic w'); right; now exists p1]].
-      exists H1, K1. split; [exact A1|]. cbn [th_over th_cur th_started th_loc th_rest]. auto.
+      exists H1, K1. split; [exact A1|]. cbn [th_over th_cur th_started th_loc th_rest].
+      split; [reflexivity|]. split; [exact CL|]. split; [now exists o1|exact W1].
 Qed.
 
 Lemma settle_inv t o loc rest p w evs H K th' w' evs' :
@@ -181,9 +184,10 @@ Proof.
       exists H1, K1. split; [exact A1|]. cbn [th_over]. now apply ST.
     + destruct (drain_calls_inv t rest lc' w1 _ H1 K1 th' w' evs' A1 C1 T1 CL1 E) as [I1 [I2 I3]].
       split; [exact I1|]. split; [exact I2|]. eapply frame_trans; [apply (FR out w1); now left|exact I3].
-  - destruct D as [H1 [K1 [A1 [C1 [W1 N1]]]]]. inversion E; subst.
+  - destruct D as [H1 [K1 [A1 [C1 [W1 [o1 [N1 _]]]]]]]. inversion E; subst.
     split; [|split; [exact C1|apply (FR OPanic w'); right; now exists p1]].
-    exists H1, K1. split; [exact A1|]. cbn [th_over th_cur th_started th_loc th_rest]. auto.
+    exists H1, K1. split; [exact A1|]. cbn [th_over th_cur th_started th_loc th_rest].
+    split; [reflexivity|]. split; [exact CL|]. split; [now exists o1|exact W1].
 Qed.
 
 
@@ -209,10 +213,10 @@ Proof.
   unfold get_thr in OV. rewrite nth_overflow in OV by exact L. discriminate.
 Qed.
 
-Lemma turn_inv n s t : GI n s -> enabled wpol s t = true -> GI n (turn wpol e nl s t).
+Lemma turn_inv n s t : GI n s -> enabled wpol s t = true -> GI n (turn_g false yr wpol e nl s t).
 Proof.
   intros G EN. destruct (enabled_live s t EN) as [Lt OV]. rewrite (gi_len _ _ G) in Lt.
-  unfold turn, turn_g.
+  unfold turn_g.
   pose proof (gi_thr _ _ G t Lt) as [H [K [A R]]]. rewrite OV in R.
   assert (UPD : forall th' w' evs' nt, TI t th' w' -> clean w' -> frame t (b_w s) w' ->
                 GI n (mkb w' (set_nth (b_thr s) t th') evs' nt)).
@@ -232,7 +236,12 @@ Proof.
       pose proof (step_other (pendw wpol (b_thr s) t) t u p (clear_trace (b_w s)) Hu Ku N (agree_clear _ _ _ _ Y)) as Z.
       rewrite X in Z. exact Z. }
     destruct (step (pendw wpol (b_thr s) t) t p (clear_trace (b_w s))) as [v| | | |p' w1|w1] eqn:SP; try exact G.
-    destruct D as [H1 [K1 [A1 [C1 W1]]]].
+    destruct D as [H1 [K1 [A1 [C1 W1]]]]. cbn [negb andb]. rewrite andb_true_r.
+    destruct (yr && match parked (get_thr (b_thr s) t) with Some op => is_rel_op op | None => false end).
+    { (* the thread pauses after its release *)
+      apply UPD; [|exact C1|apply (FS p' w1); reflexivity].
+      exists H1, K1. split; [exact A1|]. cbn [th_over th_cur th_started th_loc th_rest].
+      split; [reflexivity|]. split; [exact CL|]. split; [exists pause_op; reflexivity|]. cbn [Wp.wp pause_op]. exact W1. }
     destruct (settle false (match parked (get_thr (b_thr s) t) with Some op => is_rel_op op | None => false end) e t o
                      (th_loc (get_thr (b_thr s) t)) (th_rest (get_thr (b_thr s) t)) p' w1
                      (wrap (w_trace w1) ++ b_evs s)) as [[th' w'] evs'] eqn:SE.
@@ -264,9 +273,9 @@ Proof. intros E1 E2 [A B C D]. constructor; rewrite ?E1, ?E2; assumption. Qed.
 Lemma enabled_ext s s' t : b_w s' = b_w s -> b_thr s' = b_thr s -> enabled wpol s' t = enabled wpol s t.
 Proof. intros E1 E2. unfold enabled. rewrite E1, E2. reflexivity. Qed.
 
-Lemma run_sched_inv n : forall sched s, GI n s -> GI n (fst (run_sched wpol e nl s sched)).
+Lemma run_sched_inv n : forall sched s, GI n s -> GI n (fst (run_sched_g false yr wpol e nl s sched)).
 Proof.
-  unfold run_sched. induction sched as [|t r IH]; intros s G; cbn [run_sched_g].
+  induction sched as [|t r IH]; intros s G; cbn [run_sched_g].
   - cbn [fst]. destruct (note_waits_same wpol nl (seq 0 (length (b_thr s))) s) as [A B]. eapply GI_ext; eassumption.
   - destruct (note_waits_same wpol nl (seq 0 (length (b_thr s))) s) as [A B].
     set (s1 := note_waits wpol nl s (seq 0 (length (b_thr s)))) in *.
@@ -341,7 +350,7 @@ Proof.
     intros t [Lt OV] ST. rewrite (gi_len _ _ G) in Lt.
     destruct (gi_thr _ _ G t Lt) as [H [K [A R]]]. rewrite OV in R. unfold parked. rewrite OV, ST. cbn [negb orb].
     destruct (th_cur (get_thr (b_thr s) t)) as [[o p]|].
-    + destruct R as [_ [_ [[op [N _]] _]]]. rewrite N. now exists op.
+    + destruct R as [_ [_ [[op N] _]]]. rewrite N. now exists op.
     + destruct R as [ST' _]. congruence.
 Qed.
 
@@ -369,10 +378,10 @@ Proof.
 Qed.
 
 Theorem every_schedule_stable sched :
-  stable_state nl wpol rk (bound_of sc) (fst (run_sched wpol e nl (binit b) sched)).
+  stable_state nl wpol rk (bound_of sc) (fst (run_sched_g false yr wpol e nl (binit b) sched)).
 Proof. eapply GI_stable. apply run_sched_inv. apply GI_init. Qed.
 
-Lemma reach_GI sched : GI (length (bs_progs b)) (fst (run_sched wpol e nl (binit b) sched)).
+Lemma reach_GI sched : GI (length (bs_progs b)) (fst (run_sched_g false yr wpol e nl (binit b) sched)).
 Proof. apply run_sched_inv. apply GI_init. Qed.
 
 (* user data is read under a hold and written under the exclusive hold *)
@@ -426,7 +435,7 @@ Proof.
   destruct (api_fin e loc o out) as [lc' rc]. destruct (stops rc); [exact D|]. apply drain_calls_rawwf. exact D.
 Qed.
 
-Lemma turn_rawwf ra wpo e nl0 s t : rawwf (b_w s) -> rawwf (b_w (turn_g ra wpo e nl0 s t)).
+Lemma turn_rawwf ra yr wpo e nl0 s t : rawwf (b_w s) -> rawwf (b_w (turn_g ra yr wpo e nl0 s t)).
 Proof.
   intros R. unfold turn_g. destruct (negb (th_started (get_thr (b_thr s) t))).
   - pose proof (drain_calls_rawwf ra false e t (th_rest (get_thr (b_thr s) t)) (th_loc (get_thr (b_thr s) t)) (b_w s) (b_evs s) R) as D.
@@ -435,12 +444,13 @@ Proof.
   - destruct (th_cur (get_thr (b_thr s) t)) as [[o p]|]; [|exact R].
     pose proof (step_rawwf (pendw wpo (b_thr s) t) t p (clear_trace (b_w s)) (rawwf_clear _ R)) as D.
     destruct (step (pendw wpo (b_thr s) t) t p (clear_trace (b_w s))) as [v| | | |p' w1|w1]; try exact R.
+    match goal with |- context [if ?c then _ else _] => destruct c end; [exact D|].
     match goal with |- context [settle ?a ?b ?c ?d ?e0 ?f ?g ?h ?i ?j] =>
       pose proof (settle_rawwf a b c d e0 f g h i j D) as X; destruct (settle a b c d e0 f g h i j) as [[th' w'] evs'] end.
     exact X.
 Qed.
 
-Lemma run_sched_rawwf ra wpo e nl0 : forall sched s, rawwf (b_w s) -> rawwf (b_w (fst (run_sched_g ra wpo e nl0 s sched))).
+Lemma run_sched_rawwf ra yr wpo e nl0 : forall sched s, rawwf (b_w s) -> rawwf (b_w (fst (run_sched_g ra yr wpo e nl0 s sched))).
 Proof.
   induction sched as [|t r IH]; intros s R; cbn [run_sched_g].
   - cbn [fst]. destruct (note_waits_same wpo nl0 (seq 0 (length (b_thr s))) s) as [A _]. rewrite A. exact R.
@@ -528,9 +538,9 @@ Proof.
   apply Forall_forall. intros ops Ho. rewrite forallb_forall in H0. now apply H0.
 Qed.
 
-Lemma reach_GI_dec b sched : wfB_gen b = true ->
+Lemma reach_GI_dec yr b sched : wfB_gen b = true ->
   GI b blk_of (length (bs_progs b))
-     (fst (run_sched (bs_wp b) (sc_env (bs_sc b)) (sc_nlocks (bs_sc b)) (binit b) sched)).
+     (fst (run_sched_g false yr (bs_wp b) (sc_env (bs_sc b)) (sc_nlocks (bs_sc b)) (binit b) sched)).
 Proof. intros W. destruct (wfB_parts b W) as [EO [PRE [F1 [FP CL]]]]. apply reach_GI; assumption. Qed.
 End Decide.
 
@@ -551,17 +561,24 @@ Definition wfB (b : bscen) : bool :=
 Lemma blk_rank nl rk o H l : blk_of (fun _ => rank_ok nl rk) o H l -> rank_ok nl rk H l.
 Proof. destruct o; cbn [blk_of]; tauto. Qed.
 
+Theorem every_schedule_stable_g yr b sched :
+  wfB b = true ->
+  let sc := bs_sc b in
+  stable_state (sc_nlocks sc) (bs_wp b) (rk_of sc) (bound_of sc)
+               (fst (run_sched_g false yr (bs_wp b) (sc_env sc) (sc_nlocks sc) (binit b) sched)).
+Proof.
+  intros W sc.
+  pose proof (reach_GI_dec (fun _ => rank_ok (sc_nlocks sc) (rk_of sc)) (fun _ => rank_okb (sc_nlocks sc) (rk_of sc))
+                           (fun _ H l => rank_okb_ok _ _ H l) yr b sched W) as G.
+  eapply GI_stable; [|exact G]. intros o H l. apply blk_rank.
+Qed.
+
 Theorem every_schedule_stable_dec b sched :
   wfB b = true ->
   let sc := bs_sc b in
   stable_state (sc_nlocks sc) (bs_wp b) (rk_of sc) (bound_of sc)
                (fst (run_sched (bs_wp b) (sc_env sc) (sc_nlocks sc) (binit b) sched)).
-Proof.
-  intros W sc.
-  pose proof (reach_GI_dec (fun _ => rank_ok (sc_nlocks sc) (rk_of sc)) (fun _ => rank_okb (sc_nlocks sc) (rk_of sc))
-                           (fun _ H l => rank_okb_ok _ _ H l) b sched W) as G.
-  eapply GI_stable; [|exact G]. intros o H l. apply blk_rank.
-Qed.
+Proof. exact (every_schedule_stable_g false b sched). Qed.
 
 (* no schedule leads the model into a deadlock *)
 Theorem every_schedule_deadlock_free b sched :
@@ -589,9 +606,13 @@ Theorem model_never_reports_deadlock b sched :
   wfB b = true ->
   let st := bo_status (model_bobs b sched) in st <> BDeadlock /\ st <> BSelfWait.
 Proof.
-  intros W. unfold model_bobs, model_bobs_g. fold (run_sched (bs_wp b) (sc_env (bs_sc b)) (sc_nlocks (bs_sc b)) (binit b) sched).
-  pose proof (every_schedule_deadlock_free b sched W) as D. cbn zeta in D.
-  destruct (run_sched (bs_wp b) (sc_env (bs_sc b)) (sc_nlocks (bs_sc b)) (binit b) sched) as [s ok] eqn:R.
+  intros W. unfold model_bobs, model_bobs_g.
+  assert (D : let s := fst (run_sched_g false (bs_yr b) (bs_wp b) (sc_env (bs_sc b)) (sc_nlocks (bs_sc b)) (binit b) sched) in
+              (exists t, live s t) -> exists t', enabled (bs_wp b) s t' = true).
+  { intros s. apply (no_deadlock (sc_nlocks (bs_sc b)) (bs_wp b) (rk_of (bs_sc b)) (bound_of (bs_sc b)) s).
+    apply every_schedule_stable_g. exact W. }
+  cbn zeta in D.
+  destruct (run_sched_g false (bs_yr b) (bs_wp b) (sc_env (bs_sc b)) (sc_nlocks (bs_sc b)) (binit b) sched) as [s ok] eqn:R.
   cbn [fst] in D. cbn [bo_status]. unfold status_of.
   destruct (negb ok); [split; discriminate|].
   destruct (all_over s) eqn:AO; [split; discriminate|].
@@ -622,7 +643,7 @@ Theorem every_schedule_data_under_hold b sched t pos l :
 Proof.
   intros W sc s. eapply GI_data.
   apply (reach_GI_dec (fun _ => rank_ok (sc_nlocks sc) (rk_of sc)) (fun _ => rank_okb (sc_nlocks sc) (rk_of sc))
-                      (fun _ H l => rank_okb_ok _ _ H l) b sched W).
+                      (fun _ H l => rank_okb_ok _ _ H l) false b sched W).
 Qed.
 
 (* two threads are never at conflicting accesses of the same lock's data *)
